@@ -76,6 +76,24 @@ fn main() {
             let code = framework::replay_main(&def, v["space"].as_u64().unwrap() as usize, v["case"].as_u64().unwrap());
             std::process::exit(code);
         }
+        "dump" => {
+            // mc dump <dir>: write the generated skeletons to disk (self-validation with readelf)
+            let dir = std::path::PathBuf::from(&args[2]);
+            std::fs::create_dir_all(&dir).expect("mkdir");
+            let mut all = skeleton::tiny_skeletons();
+            all.extend(skeleton::small_shapes());
+            all.extend(skeleton::extnum_shapes());
+            for e in refmodel::layout::ENCS {
+                all.extend(skeleton::rotated_skeletons(e).into_iter().step_by(9));
+            }
+            for sk in all {
+                let name = sk.name.replace('/', "_").replace('=', "-");
+                std::fs::write(dir.join(name), &sk.bytes).expect("write");
+            }
+        }
+        "audit" => {
+            println!("{}", serde_json::to_string_pretty(&props::surface_audit()).unwrap());
+        }
         "list" => {
             for p in props::ALL {
                 println!("{p}");
